@@ -204,6 +204,30 @@ fn gen(rng: &mut Rng, i: u64) -> String {
 	format!("lit src={}", hex(src.as_bytes()))
 }
 
+/// Case twins: every eighth case repeats the pattern of the case before it with the letter case flipped INSIDE the
+/// quoted text sections only (hex digits, operators and everything else unchanged).  Both literals are compiled in
+/// the same generated crate, so an expansion that depends on anything but the literal itself (state kept between
+/// two invocations of the macro, a cache keyed on a normalised string) shows up as a difference from parse().
+fn gen_at(seed: u64, i: u64) -> String {
+	if i % 8 == 5 && i >= 2 {
+		let value = gen_value(&mut Rng::for_case(seed, i - 1));
+		let mut inq = false;
+		let flipped: String = value.chars().map(|c| {
+			if c == '"' { inq = !inq; c }
+			else if inq && c.is_ascii_lowercase() { c.to_ascii_uppercase() }
+			else if inq && c.is_ascii_uppercase() { c.to_ascii_lowercase() }
+			else { c }
+		}).collect();
+		if flipped != value {
+			let mut rng = Rng::for_case(seed, i);
+			let has_nul = flipped.contains('\0');
+			let src = format!("\"{}\"", spell(&mut rng, &flipped, has_nul));
+			return format!("lit src={}", hex(src.as_bytes()));
+		}
+	}
+	gen(&mut Rng::for_case(seed, i), i)
+}
+
 // ---------------------------------------------------------------- the shared parser source
 fn harness_dir() -> PathBuf { PathBuf::from(env!("CARGO_MANIFEST_DIR")) }
 fn repo_dir() -> String {
@@ -577,7 +601,7 @@ fn main() {
 			let mut table: HashMap<u64, String> = HashMap::new();
 			for b in b0..=b1 {
 				let idx: Vec<u64> = (b * BLOCK..(b + 1) * BLOCK).collect();
-				let cases: Vec<String> = idx.iter().map(|&i| gen(&mut Rng::for_case(seed, i), i)).collect();
+				let cases: Vec<String> = idx.iter().map(|&i| gen_at(seed, i)).collect();
 				let obs = observe_cases(&cases, solo_budget());
 				for (k, &i) in idx.iter().enumerate() { if i >= start && i < start + count { table.insert(i, format!("{}\u{1}{}", cases[k], obs[k])); } }
 			}
